@@ -47,45 +47,70 @@ def filtering_iter_classes(eff):
     return out
 
 
+def _index_space_loops(m, rel, eff, filt_classes):
+    """[(qualname, loop, misuse list)] for every enumeration of a filtered view in a module."""
+    out = []
+    for q, fn in m.functions():
+        for loop in ast.walk(fn):
+            if not (isinstance(loop, ast.For) and isinstance(loop.iter, ast.Call) and call_name(loop.iter) == 'enumerate' and loop.iter.args):
+                continue
+            if not (isinstance(loop.target, ast.Tuple) and isinstance(loop.target.elts[0], ast.Name)):
+                continue
+            src = loop.iter.args[0]
+            idx = loop.target.elts[0].id
+            cls = q.split('.')[0]
+            self_filtered = text(src) == 'self' and (rel, cls) in filt_classes
+            if not (_is_filtered(src) or self_filtered):
+                continue
+            bad = []
+            for n in ast.walk(loop):
+                if isinstance(n, ast.Subscript) and isinstance(n.slice, ast.Name) and n.slice.id == idx:
+                    if text(n.value) != text(src):
+                        bad.append(text(n))
+                    elif self_filtered:
+                        # self[i] is fine only if the item protocol applies the same filter (R17.a)
+                        from .c17 import coherent
+
+                        ok, why = coherent(eff, filt_classes[(rel, cls)])
+                        if not ok:
+                            bad.append(f'{text(n)} ({why})')
+                if isinstance(n, ast.Call) and call_name(n).split('.')[-1] in ('deleteRule', 'insertRule', 'pop', 'insert') and any(isinstance(a, ast.Name) and a.id == idx for a in n.args):
+                    bad.append(text(n))
+            out.append((q, loop, bad))
+    return out
+
+
+# the expected number of findings of R15.a is zero, so the matcher is exercised on a positive
+# example on every run (the shape of the defect repaired in 787d41f)
+_R15A_EXAMPLE = '''
+class _Namespaces:
+    def __delitem__(self, prefix):
+        for i, rule in enumerate(filter(lambda r: r.type == r.NAMESPACE_RULE, self.parentStyleSheet.cssRules)):
+            if rule.prefix == prefix:
+                self.parentStyleSheet.deleteRule(i)
+                return
+'''
+
+
 def r15a(chk, rid='R15.a'):
     chk.rule(rid, 'index-space rule: an index obtained by enumerating a filtered view (filter(...), a comprehension with a condition, or `self` of a class whose __iter__ skips items) must not be used to index or delete from another sequence, nor be handed to deleteRule/insertRule as a position')
+    from sa.core import Module
+
     eff = Effects.get(chk.repo)
     filt_classes = filtering_iter_classes(eff)
+    ex = _index_space_loops(Module('<example>', None, src=_R15A_EXAMPLE), '<example>', eff, filt_classes)
+    if not (len(ex) == 1 and ex[0][2]):
+        raise AnalysisError('the index-space matcher no longer recognises its positive example')
     n_loops = 0
     for rel, m in chk.repo.modules.items():
         if rel in SKIP:
             continue
-        for q, fn in m.functions():
-            for loop in ast.walk(fn):
-                if not (isinstance(loop, ast.For) and isinstance(loop.iter, ast.Call) and call_name(loop.iter) == 'enumerate' and loop.iter.args):
-                    continue
-                if not (isinstance(loop.target, ast.Tuple) and isinstance(loop.target.elts[0], ast.Name)):
-                    continue
-                src = loop.iter.args[0]
-                idx = loop.target.elts[0].id
-                cls = q.split('.')[0]
-                self_filtered = text(src) == 'self' and (rel, cls) in filt_classes
-                if not (_is_filtered(src) or self_filtered):
-                    continue
-                n_loops += 1
-                bad = []
-                for n in ast.walk(loop):
-                    if isinstance(n, ast.Subscript) and isinstance(n.slice, ast.Name) and n.slice.id == idx:
-                        if text(n.value) != text(src):
-                            bad.append(text(n))
-                        elif self_filtered:
-                            # self[i] is fine only if the item protocol applies the same filter (R17.a)
-                            from .c17 import coherent
-
-                            ok, why = coherent(eff, filt_classes[(rel, cls)])
-                            if not ok:
-                                bad.append(f'{text(n)} ({why})')
-                    if isinstance(n, ast.Call) and call_name(n).split('.')[-1] in ('deleteRule', 'insertRule', 'pop', 'insert') and any(isinstance(a, ast.Name) and a.id == idx for a in n.args):
-                        bad.append(text(n))
-                chk.ob(rid, rel, q, f'index of `for {text(loop.target)} in {text(loop.iter)[:60]}` stays in its own index space', not bad,
-                       f'the position among the filtered items is used as a position in another sequence: {bad} - with any skipped item in front, the wrong element is addressed')
-    if n_loops < 2:
-        raise AnalysisError(f'only {n_loops} enumerations of filtered views found (2 confirmed by hand)')
+        for q, loop, bad in _index_space_loops(m, rel, eff, filt_classes):
+            n_loops += 1
+            chk.ob(rid, rel, q, f'index of `for {text(loop.target)} in {text(loop.iter)[:60]}` stays in its own index space', not bad,
+                   f'the position among the filtered items is used as a position in another sequence: {bad} - with any skipped item in front, the wrong element is addressed')
+    chk.ob(rid, '<checker>', 'R15.a', f'positive example recognised; {n_loops} enumerations of filtered views in the package', True)
+    chk.extra['filtered_enumerations'] = n_loops
 
 
 def r15b(chk, rid='R15.b'):
